@@ -38,6 +38,8 @@ def api_family(rp, only=None):
         ("constructor-parent-then-user", "class Base(def name: Str)\nclass C: Base(\"fixed\")\n    def extra: Int := 0\n    def __init__(self, n: Int) => self.extra := n + 1",
          "c = C(4); print(c.name, c.extra)", "fixed 5"),
         ("constructor-field-from-class-argument", "class Base(def name: Str)\nclass C(def n: Int, tag: Str): Base(tag)", "c = C(4, 't'); print(c.n, c.name, hasattr(c, 'tag'))", "4 t False"),
+        ("constructor-parent-initialised-first", "class Base(def name: Str)\nclass C: Base(\"fixed\")\n    def label: Str := \"\"\n    def __init__(self) => self.label := self.name",
+         "print(C().label)", "fixed"),
         ("constructor-with-parent", "class Base(def name: Str)\nclass C(def n: Int): Base(\"c\")", "c = C(4); print(c.n, c.name, [k.__name__ for k in C.__bases__])", "4 c ['Base']"),
         ("inheritance-order", "class M1\n    def who(self) -> Str => \"m1\"\nclass M2\n    def who(self) -> Str => \"m2\"\nclass D: M1, M2",
          "print(D().who(), [k.__name__ for k in D.__bases__])", "m1 ['M1', 'M2']"),
